@@ -175,12 +175,71 @@ def run_shard(shard, ctx):
         bad = [r for r in out["results"] if r[1] != "ok"] + [["star:" + mn, why] for mn, why in out.get("star_failures", ())]
         if bad:
             ctx.violation("import-fails:%s:%s" % (fl[0], bad[0][0]), dict(history=list(h), flags=list(fl)), "import %s fails in a fresh interpreter started with %s (history %r): %s" % (bad[0][0], fl[0], list(h), bad[0][1]), script=SCRIPT.format(hist=list(h)).replace('[sys.executable, "-I", "-c"', '[sys.executable, "-I", "%s", "-c"' % fl[0]))
+    # the way the package is DEPLOYED is part of "a fresh interpreter" too: the same modules (and the data files next
+    # to them) packed into a zip archive on sys.path (zipapp, bundlers) - every first import and the full import
+    import shutil
+    import tempfile
+    import zipfile
+
+    zdir = tempfile.mkdtemp(prefix="c20zip_")
+    try:
+        zpath = os.path.join(zdir, "bundle.zip")
+        with zipfile.ZipFile(zpath, "w") as z:
+            pkg = os.path.join(core.REPO, "chartparse")
+            for root, dirs, files in os.walk(pkg):
+                dirs[:] = [d for d in dirs if d != "__pycache__"]
+                for fn in files:
+                    if not fn.endswith(".pyc"):
+                        fpath = os.path.join(root, fn)
+                        z.write(fpath, os.path.relpath(fpath, core.REPO))
+        zjobs = [(m,) for m in mods] + [tuple(mods), tuple(mods[::-1])]
+
+        def zrun(h):
+            p = subprocess.run([PY, "-I", CHILD, zpath] + list(h), capture_output=True, text=True, timeout=120)
+            if p.returncode != 0 or not p.stdout.strip():
+                raise core.HarnessFault("import child (zip deployment) failed for %r: %s" % (h, p.stderr[-500:]))
+            return json.loads(p.stdout.strip().splitlines()[-1])
+
+        outs = list(pool.map(zrun, zjobs))
+        for h, out in zip(zjobs, outs):
+            ctx.case(("zip", h))
+            ctx.evaluations += 1
+            ctx.hist["zip_deployment_imports"] += 1
+            bad = [r for r in out["results"] if r[1] != "ok"] + [["star:" + mn, why] for mn, why in out.get("star_failures", ())]
+            if bad:
+                ctx.violation("import-fails:zip:%s" % bad[0][0], dict(history=list(h), deployment="zip"), "import %s fails in a fresh interpreter when the package is loaded from a zip archive (history %r): %s" % (bad[0][0], list(h), bad[0][1]))
+            elif len(h) == len(mods) and full and (out["table"], out["aliases"]) != (states[full[0]].get("table"), states[full[0]].get("aliases")) and "table" in states[full[0]]:
+                from ..refmodel import diff
+
+                ctx.violation("order-dependent-namespace", dict(history=list(h), deployment="zip"), "the full import from a zip archive leaves other public names / objects than from the directory: %s" % (diff(out["table"], states[full[0]]["table"]) or diff(out["aliases"], states[full[0]]["aliases"])))
+    finally:
+        shutil.rmtree(zdir, ignore_errors=True)
     pool.shutdown()
     # states / transitions of the merged graph (root is added by the runner); un-merged runs are traces
     ctx.nodes, ctx.edges = graph[0] - 1, graph[1]
 
 
 def replay(case):
+    if case.get("deployment") == "zip":
+        import shutil
+        import tempfile
+        import zipfile
+
+        zdir = tempfile.mkdtemp(prefix="c20zip_")
+        try:
+            zpath = os.path.join(zdir, "bundle.zip")
+            with zipfile.ZipFile(zpath, "w") as z:
+                for root, dirs, files in os.walk(os.path.join(core.REPO, "chartparse")):
+                    dirs[:] = [d for d in dirs if d != "__pycache__"]
+                    for fn in files:
+                        if not fn.endswith(".pyc"):
+                            z.write(os.path.join(root, fn), os.path.relpath(os.path.join(root, fn), core.REPO))
+            p = subprocess.run([PY, "-I", CHILD, zpath] + list(case["history"]), capture_output=True, text=True, timeout=120)
+            out = json.loads(p.stdout.strip().splitlines()[-1])
+        finally:
+            shutil.rmtree(zdir, ignore_errors=True)
+        bad = [r for r in out["results"] if r[1] != "ok"]
+        return [dict(key="import-fails:zip:" + bad[0][0], msg=bad[0][1], case=case)] if bad else []
     out = run_child(case["history"], case.get("flags", ()))
     bad = [r for r in out["results"] if r[1] != "ok"]
     if bad:
